@@ -114,7 +114,7 @@ class DirectivesTransformer(converter.Base):
   def visit_Name(self, node):
     node = self.generic_visit(node)
     if isinstance(node.ctx, ast.Load):
-      defs = anno.getanno(node, anno.Static.DEFINITIONS, ())
+      defs = anno.getanno(node, anno.Static.ORIG_DEFINITIONS, ())
       is_defined = bool(defs)
       if not is_defined and node.id in self.ctx.info.namespace:
         anno.setanno(node, STATIC_VALUE, self.ctx.info.namespace[node.id])
